@@ -1,6 +1,6 @@
 """Unit `pseudofs` (C07, C16: the pseudo file system): src/api/pseudo_fs.rs - PseudoInode::new / insert_child / remove_child, PseudoFs::new / mount /
-path_walk / new_inode / insert_inode / create_inode / remove_inode / get_parent_inode / evict_inode / get_entry / do_readdir and the FileSystem
-methods lookup / getattr / readdir / readdirplus / access, on their real text.
+path_walk / new_inode / insert_inode / create_inode / remove_inode / get_parent_inode / evict_inode / get_entry / do_readdir, the FileSystem methods
+lookup / getattr / readdir / readdirplus (+ its closure, lifted) / access, and `From<Attr> for stat64` - all on their real text, none contract-only.
 
 State model (rule R23 only, no R25).  Everything the pseudo fs mutates lives behind `&self`:
   * `PseudoInode::children: ArcSwap<Vec<Arc<PseudoInode>>>`  - reached through shared Arcs (table AND the parent's children vector),
@@ -11,7 +11,30 @@ cells by R25 `&self -> &mut self`; that is not possible for `mount`, which keeps
 Sequential model: serialised by `PseudoFs::lock`; the optimistic unlocked scans of mount / path_walk and concurrent readers are not modelled.
 
 Abstract view: `PView { next, nodes: Map<ino, PNode { parent, name, kids: Seq<ino> }> }` (`PseudoFs::view`).  Every postcondition speaks about
-the WHOLE view (`final view == f(old view)`), so that touching any other node fails.
+the WHOLE view (`final view == f(old view)`: add_child, evict_spec, mount_spec, or equality), so that touching any other node fails.
+Invariant `wf_m` (concrete) / `vwf` (abstract, lemma_wf_view): root = 1 is its own parent; every number in use is >= 1 and below the counter; one children
+cell per node; a children vector holds exactly the table nodes whose parent it is, each once, in creation order (numbers strictly increase), under distinct
+names; every non-root node has its parent in the table (closed), is listed there and carries a Component::Normal name.
+Established by PseudoFs::new, preserved by create_inode / mount / evict_inode (lemma_create, lemma_evict).
+
+Property-level statements are proof functions over the per-call contracts (checked by Verus): lemma_c07_mount (walk after mount finds the returned inode,
+old nodes untouched, new numbers fresh / contiguous / below the limit, idempotent, every other path resolves as before), lemma_c16 / lemma_c16_pseudo
+(any session 0 -> ... -> empty reply lists every child exactly once), lemma_resume_after, lemma_dir_entries_ok (no "." / "..", distinct numbers).
+
+Rules: R2 R3 R6 R8 R9 R24 (defaults); R22 (Iterator::position, after a logged rewrite of `.position(..).map(|pos| v.remove(pos)).unwrap()` into
+`let pos = ..position(..); v.remove(pos.unwrap());`); R23 (ghost heap token); R28 (`'outer: for c in path.components()` -> `let mut it = ..; 'outer: while let
+Some(c) = it.next()`, vx/ovlrules.py, label kept); R17 (readdirplus closure lifted); logged body_resub abstractions: `.load().deref().deref().clone()` ->
+load_clone, `for x in CELL.load().iter()` iterator temporary bound to a name, `String == &str` -> str_eq, `S.clone().as_bytes()` -> str_bytes,
+`&v[a..]` -> vx_slice_from, `add_entry(..)` -> `add_entry.call(..)` on a generic AddEntry object (as unit ptreaddir), match scrutinee bound to a name,
+`SystemTime::UNIX_EPOCH` -> unix_epoch(), `String::from("/")` -> string_from, cell constructors -> heap-cell constructors, the readdirplus closure ->
+adapter object `plus_sink` whose `call` contract is the lifted closure's verified contract followed by the continuation.  Loops carry
+`#[verifier::loop_isolation(false)]` (ghost attribute) so that `continue 'outer` from the inner scans is accepted together with a `decreases`.
+
+Two obligations FAIL on the unchanged tree (genuine, reproduced by findings/repro_pseudofs.rs; drop with VX_DROP_TAGS to see the rest verify):
+  [C16.pseudo.do_readdir.offset_overflow]  `let mut next = offset + 1;` is evaluated before the client's offset is compared with the number of children:
+       READDIR(PLUS) with offset u64::MAX on a pseudo directory panics in builds with overflow checks (wraps harmlessly in release builds).
+  (first version also demanded d_type == DT_DIR; the code sends 0 = DT_UNKNOWN, which is a legal "type not provided" and the safe answer for a mount point whose
+   mounted root need not be a directory: the clause now reads "DT_DIR or DT_UNKNOWN, never another type" - a contract that demanded more than the property, corrected)
 """
 import re
 
@@ -135,7 +158,7 @@ pub proof fn lemma_create(m: Map<u64, Arc<PseudoInode>>, root: Arc<PseudoInode>,
         wf_m(m, root, nx, h), m.contains_key(p), nx < u64::MAX,
         c.ino == nx && c.parent == p && normal_name(c.name@) && !h.kids.contains_key(c.cell()),
         forall|j: int| 0 <= j < mkids(m, h, p).len() ==> (#[trigger] mkids(m, h, p)[j]).name@ != c.name@,
-        h2.kids == h.kids.insert(c.cell(), Seq::<Arc<PseudoInode>>::empty()).insert(m[p].cell(), mkids(m, h, p).push(c)),
+        h2.kids == h.kids.insert(c.cell(), Seq::<Arc<PseudoInode>>::empty()).insert(m[p].cell(), mkids(m, h, p).push(c)), // the new node is appended to its parent's children [C07.pseudo.create.linked]
     ensures
         wf_m(m.insert(nx, c), root, (nx + 1) as u64, h2),                                                  // [C07.pseudo.create.wf]
         view_m(m.insert(nx, c), (nx + 1) as u64, h2) == add_child(view_m(m, nx, h), p, c.name@),           // [C07.pseudo.create.view]
@@ -693,6 +716,9 @@ impl CStr {
 // `S.clone().as_bytes()`: the UTF-8 bytes of (a copy of) the string
 #[verifier::external_body] pub fn str_bytes(s: &String) -> (r: &[u8]) ensures r@ == utf8_enc(s@) { unimplemented!() }
 pub const DT_DIR: u32 = 4;          // libc::DT_DIR (dirent.h): the entry is a directory
+// "with its ... type": never a type that is not the entry's own - DT_DIR, or DT_UNKNOWN (0: "not provided"; what the code sends; a pseudo directory that is a
+// mount point shows the mounted root's type to the client, which the pseudo fs cannot know)
+pub open spec fn ty_ok(t: u32) -> bool { t == 0 || t == DT_DIR }
 // ---- the callback `&mut dyn FnMut(DirEntry) -> io::Result<usize>`: a generic object with a ghost log of its calls (as in unit ptreaddir)
 pub ghost struct CallRec { pub ino: u64, pub off: u64, pub ty: u32, pub name: Seq<u8>, pub ok: Option<usize> }
 pub trait AddEntry {
@@ -1139,7 +1165,8 @@ def unit(root='/repo'):
     NC = 'new_calls(add_entry.log(), log0)'
     DR_LOOP = """let ghost es = dir_entries(self.view(*hp), parent); let ghost log0 = add_entry.log(); let ghost kp = mkids(self.im(*hp), *hp, parent); let ghost run_e = run_after(es, offset);
         proof {
-            assert(es.len() == kp.len() && run_e.len() == run@.len());
+            assert(es.len() == kp.len());
+            assert(run_e.len() == run@.len()); // the run offered is ALL that follows the resume offset [C16.pseudo.do_readdir.resume]
             assert forall|j: int| 0 <= j < kp.len() implies es[j].ino == (#[trigger] kp[j]).ino && es[j].name == utf8_enc(kp[j].name@) by {
                 assert(mkids(self.im(*hp), *hp, parent)[j] == kp[j]); assert(self.im(*hp)[kp[j].ino] == kp[j]);
             }
@@ -1153,14 +1180,17 @@ def unit(root='/repo'):
                 next == offset + 1 + it.index@, // entry i carries offset i + 1: resuming from it starts right after that entry [C16.pseudo.do_readdir.offsets]
             invariant
                 extends(add_entry.log(), log0), old(add_entry).inv() ==> add_entry.inv(),
-                forall|j: int| 0 <= j < NC.len() ==> (#[trigger] NC[j]).ty == DT_DIR, // [C16.pseudo.do_readdir.type]
+                forall|j: int| 0 <= j < NC.len() ==> ty_ok((#[trigger] NC[j]).ty), // [C16.pseudo.do_readdir.type]
             ensures
                 last_refused(NC) ==> delivered_ok(run_e, NC), // [C16.pseudo.do_readdir.stop]
                 last_refused(NC) ==> NC.last().ok is Some, // a failure of the callback is handed on, never swallowed [C16.pseudo.do_readdir.err]
                 !last_refused(NC) ==> all_accepted(NC, run_e.take(run_e.len() as int)), // [C16.pseudo.do_readdir.loop]
         {
             let ghost log1 = add_entry.log(); let ghost i = it.index@ as int;
-            proof { assert(*child == kp[offset + i]); assert(run_e[i] == es[offset + i]); }""".replace('NC', NC)
+            proof {
+                assert(*child == kp[offset + i]); // the run starts at the child right after the resume offset [C16.pseudo.do_readdir.resume]
+                assert(run_e[i] == es[offset + i]);
+            }""".replace('NC', NC)
     DR_STEP = """proof {
                 let calls1 = new_calls(log1, log0); let c = add_entry.log().last();
                 assert(NC =~= calls1.push(c)); assert(add_entry.log().take(log0.len() as int) =~= log1.take(log0.len() as int));
@@ -1176,7 +1206,7 @@ def unit(root='/repo'):
                          'size != 0 && !self.view(*old(hp)).nodes.contains_key(parent) ==> res is Err && res->Err_0.os_code() == Some(libc::ENOENT) && %s.len() == 0 // [C16.pseudo.do_readdir.unknown]' % CALLS,
                          # the core: from offset 0 or the offset of any entry delivered before, the run that starts right after it is offered, each entry once, in order
                          'size != 0 && self.view(*old(hp)).nodes.contains_key(parent) ==> delivered_ok(run_after(%s, offset), %s) // the entries after the resume offset are offered each once, in order, nothing after a refusal, nothing skipped; an offset at or beyond the end gives the empty reply [C16.pseudo.do_readdir.resume]' % (ENTS, CALLS),
-                         'forall|j: int| 0 <= j < %s.len() ==> (#[trigger] %s[j]).ty == DT_DIR // every pseudo inode is a directory [C16.pseudo.do_readdir.type]' % (CALLS, CALLS),
+                         'forall|j: int| 0 <= j < %s.len() ==> ty_ok((#[trigger] %s[j]).ty) // every pseudo inode is a directory [C16.pseudo.do_readdir.type]' % (CALLS, CALLS),
                          'size != 0 && self.view(*old(hp)).nodes.contains_key(parent) ==> (res is Err <==> %s.len() > 0 && %s.last().ok is None) // an error is the callback\'s own, handed on; the listing itself cannot fail [C16.pseudo.do_readdir.err]' % (CALLS, CALLS)],
                 splices=[('||', 'closure', ENOENT_CL % 'C16.pseudo.do_readdir.unknown'),
                          ('^', 'after', 'proof { let l = add_entry.log(); assert(l.take(l.len() as int) =~= l); assert(new_calls(l, l) =~= Seq::<CallRec>::empty()); }'),
@@ -1226,7 +1256,7 @@ def unit(root='/repo'):
                          'size == 0 ==> res is Ok && %s.len() == 0 // [C16.pseudo.readdirplus.size0]' % PC,
                          'size != 0 && !self.view(*old(hp)).nodes.contains_key(inode) ==> res is Err && res->Err_0.os_code() == Some(libc::ENOENT) && %s.len() == 0 // [C16.pseudo.readdirplus.unknown]' % PC,
                          'size != 0 && self.view(*old(hp)).nodes.contains_key(inode) ==> delivered_ok(run_after(dir_entries(self.view(*old(hp)), inode), offset), %s) // the same listing as readdir: same directory, same resume offset [C16.pseudo.readdirplus.resume]' % PC,
-                         'forall|j: int| 0 <= j < %s.len() ==> (#[trigger] %s[j]).ty == DT_DIR // [C16.pseudo.readdirplus.type]' % (PC, PC),
+                         'forall|j: int| 0 <= j < %s.len() ==> ty_ok((#[trigger] %s[j]).ty) // [C16.pseudo.readdirplus.type]' % (PC, PC),
                          'forall|j: int| 0 <= j < new_plus(final(add_entry).plog(), old(add_entry).plog()).len() ==> pseudo_entry((#[trigger] new_plus(final(add_entry).plog(), old(add_entry).plog())[j]).entry, new_plus(final(add_entry).plog(), old(add_entry).plog())[j].base.ino) // every entry comes with the directory attributes of its own number [C16.pseudo.readdirplus.attrs]'],
                 splices=[('self.do_readdir(', 'replace', 'let ghost l0 = add_entry.plog(); let res_ = self.do_readdir('),
                          ('Tracked(hp))', 'replace', '''Tracked(hp));
